@@ -1003,7 +1003,26 @@ def _is_self_field(p, field):
 
 
 def _calls_to(m, suffix):
-    return [(bb, t) for bb, t in m.calls() if (m.callee(t) or {}).get("path", "").endswith(suffix)]
+    from .facts import short_path
+    sfx = short_path(suffix)
+    return [(bb, t) for bb, t in m.calls() if short_path((m.callee(t) or {}).get("path", "")).endswith(sfx)]
+
+
+def _replace_flushers(prog, pr):
+    """Inherent methods of Replace classified by what they emit on the inner hook:
+    'eq' (only equal) / 'delins' (only delete, insert, replace).  Names are not used."""
+    out = {}
+    for fn in prog.user_fns():
+        if not fn.mir or fn.kind == "Closure" or not fn.impl or fn.impl.get("trait"):
+            continue
+        if ty_head(fn.impl["self_ty"]) != "algorithms::replace::Replace":
+            continue
+        ms = {c["method"] for _, _, c in _hook_calls(fn)}
+        if ms and ms <= {"equal"}:
+            out.setdefault("eq", []).append(fn)
+        elif ms and ms <= {"delete", "insert", "replace"}:
+            out.setdefault("delins", []).append(fn)
+    return out
 
 
 def rule_B5(prog):
@@ -1024,8 +1043,12 @@ def rule_B5(prog):
     if rep is None:
         r.find("algorithms::replace::Replace", "no-impl", "DiffHook impl for Replace not found")
     else:
-        table = {"equal": ("flush_del_ins", ["eq"]), "delete": ("flush_eq", ["del", "ins"]),
-                 "insert": ("flush_eq", ["del", "ins"]), "replace": ("flush_eq", ["del", "ins"])}
+        fl = _replace_flushers(prog, pr)
+        eq_names = [f_.name for f_ in fl.get("eq", [])] or ["flush_eq"]
+        di_names = [f_.name for f_ in fl.get("delins", [])] or ["flush_del_ins"]
+        FLUSH_EQ, FLUSH_DI = eq_names[0], di_names[0]
+        table = {"equal": (FLUSH_DI, ["eq"]), "delete": (FLUSH_EQ, ["del", "ins"]),
+                 "insert": (FLUSH_EQ, ["del", "ins"]), "replace": (FLUSH_EQ, ["del", "ins"])}
         for name, (flush, fields) in table.items():
             fn = prog.fn(rep["methods"].get(name, ""))
             if fn is None:
@@ -1038,7 +1061,7 @@ def rule_B5(prog):
                        file=rep["raw"]["file"], line=rep["raw"]["line"])
                 continue
             m = fn.mir
-            fl = _calls_to(m, "Replace::<D>::" + flush)
+            fl = _calls_to(m, "Replace::" + flush)
             r.instances += 1
             if not fl:
                 r.ob(False, "Replace::%s has no %s call" % (name, flush))
@@ -1069,8 +1092,8 @@ def rule_B5(prog):
                    "flushed", file=rep["raw"]["file"], line=rep["raw"]["line"])
         else:
             m = fn.mir
-            a = _calls_to(m, "Replace::<D>::flush_eq")
-            b = _calls_to(m, "Replace::<D>::flush_del_ins")
+            a = _calls_to(m, "Replace::" + FLUSH_EQ)
+            b = _calls_to(m, "Replace::" + FLUSH_DI)
             f = [(bb, t) for bb, t, c in _hook_calls(fn) if c["method"] == "finish"]
             ok = len(a) >= 1 and len(b) >= 1 and len(f) == 1 and m.dominates(a[0][0], b[0][0]) and m.dominates(b[0][0], f[0][0]) \
                 and a[0][0] != b[0][0] and b[0][0] != f[0][0]
@@ -1081,8 +1104,8 @@ def rule_B5(prog):
                        "inner finish (found %d/%d/%d calls, order by dominance violated or a call missing)" % (
                            len(a), len(b), len(f)), file=fn.file, line=fn.line)
         # flush helpers: flush_eq emits only `equal`, flush_del_ins emits replace|delete|insert and clears buffers
-        for hn, allowed, fields in (("flush_eq", {"equal"}, ["eq"]), ("flush_del_ins", {"delete", "insert", "replace"}, ["del", "ins"])):
-            fns = [f_ for f_ in prog.find("Replace::<D>::" + hn)]
+        for hn, allowed, fields in ((FLUSH_EQ, {"equal"}, ["eq"]), (FLUSH_DI, {"delete", "insert", "replace"}, ["del", "ins"])):
+            fns = [f_ for f_ in prog.find("Replace::" + hn)]
             for f_ in fns:
                 r.instances += 1
                 ms = {c["method"] for _, _, c in _hook_calls(f_)}
